@@ -29,6 +29,7 @@ def run(ctx) -> None:
     for dev in concrete_devices(ctx):
         ctx.guard("C06.wiring", wiring, dev)
         ctx.guard("C06.iteration-space", iteration_space, dev)
+        ctx.guard("C06.never-too-large", never_too_large, dev)
     ctx.reuse("C06.wiring", c16.override_set)
     ctx.reuse("C06.step-guard", c03.step_guard_validator)
     ctx.reuse("C06.step-guard", c03.step_guard_wiring)
@@ -218,6 +219,107 @@ def wiring(ctx, dev) -> None:
             detail = f"without auto_split the step list is `{show(plain)[:40]}`; expected the single requested volume"
         ok = ok_plain and ok_split
     ctx.rep.check(ok, rule, cb + "/auto-split", "auto_split ? partition_volume(v, max_volume=self.max_volume) : [v]", detail, where=w)
+
+
+def _volume_atoms(ctx, fv, e: ast.AST, pol: bool, subject, depth: int = 0):
+    """(Compare, polarity) atoms of a guard over the requested volumes: looks through not / and / or / all / any / bool,
+    generator expressions and map(<predicate helper>, volumes), and calls of predicate helpers (single return)."""
+    if isinstance(e, ast.UnaryOp) and isinstance(e.op, ast.Not):
+        yield from _volume_atoms(ctx, fv, e.operand, not pol, subject, depth)
+    elif isinstance(e, ast.BoolOp):
+        for v in e.values:
+            yield from _volume_atoms(ctx, fv, v, pol, subject, depth)
+    elif isinstance(e, ast.Compare):
+        left = e.left
+        for op, right in zip(e.ops, e.comparators):
+            yield ast.Compare(left=left, ops=[op], comparators=[right]), pol, subject
+            left = right
+    elif isinstance(e, (ast.GeneratorExp, ast.ListComp)) and len(e.generators) == 1:
+        g = e.generators[0]
+        sub = set(subject)
+        if isinstance(g.target, ast.Name) and _mentions(g.iter, subject):
+            sub.add(g.target.id)
+        for c in [e.elt] + list(g.ifs):
+            yield from _volume_atoms(ctx, fv, c, pol, frozenset(sub), depth)
+    elif isinstance(e, ast.Call):
+        fn = call_fname(e)
+        if fn in ("all", "any", "bool") and (e.args or isinstance(e.func, ast.Attribute)):
+            yield from _volume_atoms(ctx, fv, e.args[0] if e.args else e.func.value, pol, subject, depth)
+        elif fn == "map" and len(e.args) == 2 and isinstance(e.args[0], (ast.Name, ast.Attribute)) and depth < 3:
+            call = ast.Call(func=e.args[0], args=[ast.Name(id="§v", ctx=ast.Load())], keywords=[])
+            sub = frozenset(set(subject) | {"§v"}) if _mentions(e.args[1], subject) else subject
+            yield from _volume_atoms(ctx, fv, call, pol, sub, depth)
+        elif depth < 3:
+            callee = ctx.prog.resolve_call(fv.f, e, fv.env)
+            g = callee.func if callee.kind == "func" else None
+            if g is None:
+                return
+            rets = [r for r in ast.walk(g.node) if isinstance(r, ast.Return) and r.value is not None]
+            if len(rets) != 1:
+                return
+            pos = [p for p in g.params]
+            if g.cls is not None and pos:
+                pos = pos[1:]
+            sub = set()
+            for i, a in enumerate(e.args):
+                if i < len(pos) and _mentions(a, subject):
+                    sub.add(pos[i])
+            for kw in e.keywords:
+                if kw.arg and _mentions(kw.value, subject):
+                    sub.add(kw.arg)
+            if sub:
+                gv = ctx.fv(g)
+                rt = gv.res.resolve(rets[0].value, gv.node_of(rets[0].value))
+                yield from _volume_atoms(ctx, gv, rt, pol, frozenset(sub), depth + 1)
+
+
+def _mentions(e: ast.AST, names) -> bool:
+    return any(isinstance(s_, ast.Name) and s_.id in names for s_ in ast.walk(e))
+
+
+def never_too_large(ctx, dev) -> None:
+    """With auto_split a transfer is never refused because a requested volume is large: no guard that is evaluated before
+    the pipetting loops bounds the requested volumes from above (the only volume conditions there are sign / NaN checks).
+    A refusal that is conditional on `not self.auto_split` is the documented behaviour and not reported."""
+    from .c07 import transfer_structure
+
+    rule = "C06.never-too-large"
+    t = transfer_structure(ctx, dev, rule)
+    fv, f = t.fv, t.f
+    cb = f"{dev.name}.transfer"
+    selfn = f.params[0]
+    n_guards = 0
+    for gn, test, pol_raise, r in fv.raising_guards():
+        if not (fv.cfg.dominates(gn.id, t.G) or gn.id not in fv.cfg.loop_body[t.G]):
+            continue
+        if gn.id in fv.cfg.loop_body[t.G]:
+            continue
+        rt = fv.res.resolve(test, gn.id)
+        if not _mentions(rt, {"volumes"}):
+            continue
+        n_guards += 1
+        ctrl = [fv.cfg.nodes[d].ast for d, _ in fv.controlling(gn.id, skip_raising=True)]
+        conditional = any(attr_of_name(s_, selfn, "auto_split") for c in [rt] + ctrl for s_ in ast.walk(c))
+        bad = None
+        for cmp_, pol, subject in _volume_atoms(ctx, fv, rt, not pol_raise, frozenset({"volumes"})):
+            a, b, op = cmp_.left, cmp_.comparators[0], cmp_.ops[0]
+            if not isinstance(op, (ast.Lt, ast.LtE, ast.Gt, ast.GtE)):
+                continue
+            va, vb = _mentions(a, subject), _mentions(b, subject)
+            if va == vb:
+                continue
+            less = isinstance(op, (ast.Lt, ast.LtE))
+            # the relation that holds when the guard is passed, oriented as  volume <rel> bound
+            upper = (less == pol) if va else (less != pol)
+            if upper:
+                bad = (cmp_, b if va else a)
+        c = f"{cb}/guard[{show(test)[:40]}]"
+        if bad is not None and not conditional:
+            ctx.rep.refuted(rule, c, f"the up-front check `{show(test)[:60]}` refuses requested volumes above `{show(bad[1])[:30]}` before they are split: "
+                            "with auto_split a transfer must never be refused for being too large", where=f.where(gn.ast))
+        else:
+            ctx.rep.holds(rule, c, "no upper bound on the requested volumes" if bad is None else "refusal is conditional on auto_split", where=f.where(gn.ast))
+    ctx.rep.floor(rule, f"{cb}: up-front guards over the requested volumes", n_guards, 1)
 
 
 def iteration_space(ctx, dev) -> None:
